@@ -145,7 +145,7 @@ def make_rmcp(script, max_retries=3, next_seq=0, quirks=None, slave=0x81):
     intf._session = None
     intf.host, intf.port = '192.0.2.1', 623
     intf.next_sequence_number = next_seq
-    assert intf._stop_keep_alive is None
+    assert getattr(intf, '_stop_keep_alive', None) is None
     return intf
 
 
